@@ -58,15 +58,11 @@ def empty_alt_precedence_ok(rg, chart, d, span_start=0):
 
 def run_grammar(ctx, G, family, lexers, inputs, modes=('normal', 'invert', None)):
     text = print_grammar(G)
-    if duplicate_empty_alternatives(G):
-        ctx.count('skipped-duplicate-empty-alternatives')
-        return
-    if colliding_optionals(G):
-        # two alternatives of one rule spell the same symbol sequence (a literal counts as the named terminal it coincides
-        # with): lark raises the documented "Rules defined twice" or silently keeps one of them - either way the set of
-        # derivations is not what the AST says, so tree-level oracles do not judge such grammars
-        ctx.count('skipped-colliding-alternatives')
-        return
+    # duplicate / colliding alternatives: lark keeps one of the identical expansions, so the set of derivations is not what
+    # the AST says - the reference-based oracles do not judge such grammars, but the choice must still be deterministic
+    det_only = duplicate_empty_alternatives(G) or colliding_optionals(G)
+    if det_only:
+        ctx.count('determinism-only:colliding-alternatives')
     rg = RefGrammar(G)
     cyclic = rg.is_cyclic()
     named = named_types(rg)
@@ -116,8 +112,9 @@ def run_grammar(ctx, G, family, lexers, inputs, modes=('normal', 'invert', None)
                         ctx.count('feature:fresh-instance')
                         if out4 != out:
                             ctx.violation('differs-on-fresh-instance', case, {'first': out, 'fresh': out4})
-                if cyclic:
-                    ctx.count('cyclic-determinism-only')
+                if cyclic or det_only:
+                    ctx.count('cyclic-determinism-only' if cyclic else 'colliding-determinism-only')
+                    ctx.judged([text, lexer, mode, w, 'determinism'], False, ['family:' + family])
                     continue
                 member, inp = c01_model(rg, lexer, w)
                 if not member:
@@ -175,6 +172,13 @@ def prio_regex_grammar(rng):
     for t in G['terms']:
         if t['name'] not in G['ignore']:
             t['prio'] = rng.choice([None, -1, 0, 1, 2])
+    # aliases: alternatives of one rule then shape differently, so a derivation attributed to the wrong alternative shows
+    n = 0
+    for r in G['rules']:
+        for a in r['alts']:
+            if rng.random() < 0.5:
+                a['alias'] = 'al%d' % n
+                n += 1
     return G
 
 
@@ -200,10 +204,17 @@ CORPUS = [
 ]
 
 
+COLLIDING = {'rules': [gen.rule('start', [gen.alt([['q', ['r', 'item'], '?', 0, 0], ['q', ['r', 'item'], '?', 0, 0], ['q', ['r', 'item'], '?', 0, 0]])]),
+                       gen.rule('item', [gen.alt([gen.LIT('a')]), gen.alt([gen.LIT('a'), gen.LIT('a')]), gen.alt([gen.LIT('a'), gen.LIT('a'), gen.LIT('a')])])],
+             'terms': [], 'ignore': [], 'start': ['start'], 'alphabet': ['a']}
+
+
 def run_batch(ctx):
     rng = ctx.rng
     n = PER_BATCH[ctx.tier]
     L3 = ('basic', 'dynamic', 'dynamic_complete')
+    if ctx.batch == 1:
+        run_grammar(ctx, COLLIDING, 'corpus:colliding-ties', ('basic', 'dynamic'), ['a', 'aa', 'aaa', 'aaaa', 'aaaaa'], ('normal',))
     if ctx.batch == 0:
         for name, G, lexers, inputs in CORPUS:
             G = dict({'terms': [], 'ignore': [], 'start': ['start']}, **G)
